@@ -119,7 +119,8 @@ End Handler.
 
 (** The handler: old = MPD regenerated for publishTime + 1 ms, new = MPD of now.  [REGEN] is the
     assumption that the regenerated document is the one that was served at t1 (it fails for assets
-    whose segment ends are not whole seconds, finding c11-regen-base-whole-second-publishTime). *)
+    whose segment ends are not whole seconds as long as publishTime is written in whole seconds -
+    repaired in /repo by 77e368c; the oracle checks the assumption on every served case). *)
 Theorem handler_statuses : forall (mpd_at : Z -> elem) (t1 pt1_ms t2 : Z) ptO ptN o n ttlS ttl pl,
   mpd_at (pt1_ms + 1) = mpd_at t1 ->
   e_tag (mpd_at t1) = "MPD" -> e_tag (mpd_at t2) = "MPD" ->
